@@ -118,8 +118,10 @@ def ctype(n):
         return "vf::slot< %d >" % p["k"]
     if o in ("seq", "sor", "star", "plus", "opt", "at", "not_at", "if_must", "if_must_else", "if_then_else", "list",
              "list_must", "list_tail", "minus", "must", "opt_must", "pad", "pad_opt", "partial", "star_partial",
-             "star_must", "strict", "star_strict", "until", "rematch", "enable", "disable", "raise", "separated_seq"):
+             "star_must", "strict", "star_strict", "until", "rematch", "enable", "disable", "separated_seq"):
         return "%s< %s >" % (o, K())
+    if o == "raise":  # qualified: <csignal> declares ::raise
+        return "tao::pegtl::raise< %s >" % K()
     if o in ("rep", "rep_max", "rep_min", "rep_opt"):
         return "%s< %d, %s >" % (o, p["n"], K())
     if o == "rep_min_max":
@@ -438,6 +440,8 @@ class Lowered:
         self._lower_e(e, idx)
         m = self.nodes[idx]
         m.ctype = ct
+        if n.op == "raise_message":
+            m.errmsg = n.p["msg"]  # raise_message< Cs... > carries its text as error_message
         m.action = self.g.actions.get(ct, 0)
         self.reg.append((ct, idx))
         if ct not in self.by_ctype:
@@ -594,7 +598,9 @@ def emit_grammar(g, gi, cfgset_macro="VF_CFGS"):
     out.append("}")
     js = json.dumps(g.to_json(), separators=(",", ":"))
     alphabet = g.alphabet or grammar_alphabet(g)
-    extra_txt = "".join("e.extra.push_back( std::string( \"%s\", %d ) ); " % ("".join("\\x%02x" % ord(c) for c in x), len(x)) for x in g.extra)
+    ops_used = set(n.op for r in g.rules for n in r.walk())
+    visited_ok = not (ops_used & {"until", "strict", "everything", "shebang"})
+    extra_txt = ("e.visited_check = true; " if visited_ok else "") + "".join("e.extra.push_back( std::string( \"%s\", %d ) ); " % ("".join("\\x%02x" % ord(c) for c in x), len(x)) for x in g.extra)
     if g.maxlen:
         extra_txt += "e.maxlen_quick = %d; e.maxlen_thorough = %d; " % (g.maxlen[0], g.maxlen[1])
     out.append("static const bool registered = [] { vf::gram_entry e; e.name = \"g%d\"; e.json = R\"VFJ(%s)VFJ\"; e.pretty = R\"VFP(%s)VFP\"; e.build = &build; e.alphabet = std::string( \"%s\", %d ); e.nslots = %d; e.nonempty_mask = %du; e.scripted_veto = %s; e.scripted_throw = %s; %s %s( e, R0, act ); vf::grammars().push_back( e ); return true; }();"
@@ -730,8 +736,12 @@ class Gen:
             return N(o, k(r.choice([1, 2, 2, 3])))
         if o == "raise":
             return N(o, k(1))
+        if o == "raise_message":
+            return N(o, msg="msg%d" % r.randrange(3))
         if o in CATCH_KIND:
-            return N(o, k(1))
+            if o.endswith("raise_nested"):
+                return N(o, k(1))  # one inner rule: the rule that is blamed
+            return N(o, k(r.choice([1, 1, 2])))
         if o == "separated_seq":
             return N(o, k(r.choice([2, 3, 4])))
         raise ValueError(o)
